@@ -132,7 +132,12 @@ fn prepare(src: &str, hist: &mut Hist) -> Result<Prepared, String> {
         Ok(m) => m,
         Err(e) => return Err(format!("front end ({}): {}", e.stage(), one_line(&e.text().chars().take(100).collect::<String>()))),
     };
-    let names = ir::name_generator::NameMap::build(&ir, &[], false);
+    // the name map as the HLSL exporter builds it (`GenerateContext::new`: RESERVED_NAMES of hlsl/src/names.rs — a private
+    // table, read from the source tree the harness was built from — and intrinsic names reserved)
+    static RESERVED: std::sync::OnceLock<Vec<String>> = std::sync::OnceLock::new();
+    let reserved = RESERVED.get_or_init(|| crate::c15::reserved_from_source("hlsl"));
+    let reserved_refs: Vec<&str> = reserved.iter().map(|s| s.as_str()).collect();
+    let names = ir::name_generator::NameMap::build(&ir, &reserved_refs, true);
     let mut cv = IrConv::new(&ir);
     let mut prog = Vec::new();
     let mut funcs = Vec::new();
